@@ -236,3 +236,30 @@ Theorem C05_enc_col_refval_refuses : forall w ae v o,
   ae = true /\ exists x, v = Some x /\ (1 < w)%Z /\ (Z.abs x < 2 ^ (w - 1))%Z.
 Proof. exact enc_col_refval_refuses. Qed.
 Print Assumptions C05_enc_col_refval_refuses.
+
+(* the decoder BEFORE the repair round-trips exactly the character columns outside
+   the D13 guard (everything except all-equal columns of NUL strings): this is the
+   statement that holds of the unpatched code *)
+Theorem C05_col_roundtrip_str_orig_guarded : forall nb ae vals o t,
+  col_dom_str nb ae vals = true ->
+  is_equal_nul_col nb ae vals = false ->
+  exists e, enc_col_str nb ae vals o = Ok (o ++ e) /\
+            dec_col_str_orig nb (length vals) (e ++ t) = Ok (str_view nb vals, t).
+Proof. exact col_roundtrip_str_orig_guarded. Qed.
+Print Assumptions C05_col_roundtrip_str_orig_guarded.
+
+(* ---- reading a column does not depend on what follows it ------------------------------ *)
+Theorem C05_dec_col_num_suffix : forall w n r vs r' t,
+  dec_col_num w n r = Ok (vs, r') -> dec_col_num w n (r ++ t) = Ok (vs, r' ++ t).
+Proof. exact dec_col_num_suffix. Qed.
+Print Assumptions C05_dec_col_num_suffix.
+
+Theorem C05_dec_col_codeflag_suffix : forall w dn n r vs r' t,
+  dec_col_codeflag w dn n r = Ok (vs, r') -> dec_col_codeflag w dn n (r ++ t) = Ok (vs, r' ++ t).
+Proof. exact dec_col_codeflag_suffix. Qed.
+Print Assumptions C05_dec_col_codeflag_suffix.
+
+Theorem C05_dec_col_str_suffix : forall nb n r vs r' t,
+  dec_col_str nb n r = Ok (vs, r') -> dec_col_str nb n (r ++ t) = Ok (vs, r' ++ t).
+Proof. exact dec_col_str_suffix. Qed.
+Print Assumptions C05_dec_col_str_suffix.
